@@ -133,12 +133,12 @@ def jobs_for(tier):
         J.append(make_job('slot-start-%d' % n, [b'x := $"'] + syms('s', n) + [b'$a{b}"\n'], iexp))
     # (3) interpolation equals concatenation: text before, between and after the slots is symbolic
     head = b'a := "x"\nb := "yz"\nfn f(v) {\n    return v + "!"\n}\nxs := ["L"]\no := {"k": "O"}\n'
-    slot_pool = [(b'a', b'x'), (b'f(a)', b'x!'), (b'"q"', b'q'), (b'xs[0]', b'L'), (b'{"k": a}.k', b'x'), (b'a + b', b'xyz'), (b'o["k"]', b'O'), (b'f({"k": b}["k"])', b'yz!'), (b'$"<${a}>"', b'<x>')]
+    slot_pool = [(b'a', b'x'), (b'f(a)', b'x!'), (b'"q"', b'q'), (b'xs[0]', b'L'), (b'{"k": a}.k', b'x'), (b'a + b', b'xyz'), (b'o["k"]', b'O'), (b'f({"k": b}["k"])', b'yz!'), (b'$"<${a}>"', b'<x>'), (b'""', b''), (b'b[1:1]', b'')]      # (the last two: slots whose value is the empty string)
     shapes = [(1, 0, 0), (0, 1, 0), (0, 0, 1), (1, 1, 0), (1, 0, 1), (0, 1, 1), (1, 1, 1), (2, 0, 0), (0, 2, 0), (0, 0, 2)]
     if tier == 'thorough': shapes += [(2, 1, 0), (1, 2, 0), (2, 0, 1), (0, 2, 1), (1, 1, 2), (2, 2, 0), (3, 0, 0), (0, 3, 0)]
     for si, (n1, n2, n3) in enumerate(shapes):
-        for pi, ((e1, v1), (e2, v2)) in enumerate([(slot_pool[0], slot_pool[1]), (slot_pool[2], slot_pool[3]), (slot_pool[4], slot_pool[5]), (slot_pool[6], slot_pool[7]), (slot_pool[8], slot_pool[0])]):
-            if tier == 'quick' and pi not in (0, 2) and not (si < 3 and pi == 4): continue
+        for pi, ((e1, v1), (e2, v2)) in enumerate([(slot_pool[0], slot_pool[1]), (slot_pool[2], slot_pool[3]), (slot_pool[4], slot_pool[5]), (slot_pool[6], slot_pool[7]), (slot_pool[8], slot_pool[0]), (slot_pool[9], slot_pool[0]), (slot_pool[0], slot_pool[10]), (slot_pool[10], slot_pool[9])]):
+            if tier == 'quick' and pi not in (0, 2) and not (si < 3 and pi == 4) and not (si in (3, 6) and pi in (5, 6, 7)): continue
             parts = [head, b'print($"'] + syms('p', n1) + [b'${' + e1 + b'}'] + syms('q', n2) + [b'${' + e2 + b'}'] + syms('r', n3) + [b'")\n']
             def exp(sym, zs, n1=n1, n2=n2, n3=n3, v1=v1, v2=v2): return [(z3.BoolVal(True), ('out', bt(sym, 'p', n1) + [v1] + bt(sym, 'q', n2) + [v2] + bt(sym, 'r', n3) + [b'\n']))]
             J.append(make_job('interp-%d%d%d-%d' % (n1, n2, n3, pi), parts, exp))
